@@ -14,6 +14,8 @@ Property text → theorems
     `submit_once_per_loop`
 * "a group-start member that already has a live job is left to finish rather than resubmitted"
     `live_start_member_left_alone`, `non_start_member_queued_for_removal`
+* every member is to run, so holds requested before the trigger are released: `trigger_releases_member_holds`
+  (not for `--flow=none`, nor against the hold point: findings `flow-none-keeps-hold`, `hold-point-blocks-member`)
 * "prerequisites on tasks outside the group are satisfied automatically"
     `off_group_forced`
 * "other members run only after their in-group prerequisites are satisfied"
@@ -119,6 +121,17 @@ theorem non_start_member_queued_for_removal (g : Graph) (group : List (Int × St
     (hpar : d.trigParents.any group.contains = true) :
     trigActiveOne g group flow flowNums (st, toRemove, completed) k = (st, toRemove ++ [k], completed) :=
   trigActiveOne_nonstart g group flow flowNums st toRemove completed k x d hx hd hpar
+
+/-! ### the trigger overrides holds requested before it -/
+
+/-- **Holds of the members are released**: the command applies `release_held_tasks` to the members it removed
+and to those outside the pool (`ids` below; everything but `--flow=none`, see `forceTriggerGroup`): none of them
+is on the hold list afterwards, whether it was held in the pool, or recorded as a future / finished instance
+by an earlier `cylc hold`; and no new entry appears. -/
+theorem trigger_releases_member_holds (s : State) (ids : List (Int × String)) (qir : Bool) :
+    (∀ k ∈ ids, (k.2, k.1) ∉ (releaseTasks s ids qir).tasksToHold) ∧
+    (∀ e, e ∈ (releaseTasks s ids qir).tasksToHold → e ∈ s.tasksToHold) :=
+  ⟨releaseTasks_released s ids qir, releaseTasks_sub s ids qir⟩
 
 /-! ### off-group prerequisites are satisfied, in-group ones are kept -/
 
@@ -285,5 +298,10 @@ theorem unpooled_object_counterexample :
 
 /-- `groups_cover`, `off_group_forced`: a two-group command and a respawn with a forced off-group atom -/
 example : groupsOf exGraph [(1, "a"), (1, "b")] = [[(1, "a"), (1, "b")]] := by decide +kernel
+
+/-- `cylc hold 1/b` (not yet in the pool), then the group trigger: `1/b` is off the hold list again -/
+example :
+    (final exGraph [.hold [(1, "b")]]).tasksToHold = [("b", 1)] ∧
+    (final exGraph [.hold [(1, "b")], trigAB]).tasksToHold = [] := by decide +kernel
 
 end CylcModel.C28
